@@ -2,6 +2,7 @@
 import formula as F
 import schema as S
 import refs as R
+import re
 import common
 from interp import core, places, calls_of, roots, Interp, CallV, PhiV, StructV, TupleV, Via, MutV, Const, Def, Param
 import c01
@@ -469,6 +470,12 @@ def check_eq(cfg, crate, rep):
     v = Interp(crate)
     out = v.run_fn("sign_algo::SignatureAlgorithm::from_oid")
     txt = core(out["value"]).r()
+    # the selecting comparison is equality of the *whole* arc sequences: `oid == elem.oid_components`, or the lengths
+    # compared equal next to an element-wise comparison; a prefix / element-wise-only comparison selects on a common prefix
+    side_ = r"(?:(?<![\w.\]])oid(?![\w.\[])|[\w:<>' ,]+\(\)\[\]\.oid_components(?![\w.\[]))"
+    whole_ = re.search(side_ + " == " + side_, txt) is not None
+    lens_ = re.search(r"len\((?:oid|[^()]*\(\)\[\]\.oid_components)\) == [\w:<>' \[\],]*len\((?:oid|[^()]*\(\)\[\]\.oid_components)\)", txt) is not None
+    rep.ob("C11.eq", "%s|from_oid|whole-sequence" % cfg, whole_ or lens_, "from_oid selects on equality of the whole OID arc sequence (same arcs and same length), not on a common prefix", found=txt[:300])
     rep.ob("C11.eq", "%s|from_oid" % cfg, "oid_components" in txt and "SignatureAlgorithm::iter" in " ".join(c for c, a, n, cnd, f in v.calls) and any("UnsupportedSignatureAlgorithm" in core(x).r() for _, x in (core(out["value"]).alts if isinstance(core(out["value"]), PhiV) else [(True, out["value"])])), "from_oid scans the list comparing oid_components and errors otherwise", found=txt[:200])
 
 
